@@ -397,7 +397,7 @@ def _roundtrip_archive(chk, src):
         kept = [tuple(x) if isinstance(x, (tuple, list)) else x for x in pe.iterate(again)]
         chk.decide(not stray and sorted(map(str, kept)) == sorted(map(str, eps + [ep_new])), "archive-holds-the-whole-directory", ekoc.methods["read"].qname,
                    f"edit session opened as `archive.tar` from /out, working directory changed to /elsewhere before close(): the archive then holds "
-                   f"{[tuple(map(str, k)) for k in kept]}, files written elsewhere: {stray}; required: the point stored in the session is in "
+                   f"{[tuple(map(str, k)) if isinstance(k, tuple) else str(k) for k in kept]}, files written elsewhere: {stray}; required: the point stored in the session is in "
                    f"/out/archive.tar and nothing is written elsewhere (the archive path has to be made absolute when the EKO is opened)",
                    where=ekoc.methods["read"].where, instance="relative-path-session", how="PE on a model file system with a working directory")
     except PERaise as e:
